@@ -54,6 +54,8 @@ const DEF_TEXT: &[&str] = &[
     "back\\slash",
     "plain help",
     "> pwnfile",
+    // one line, wider than the 100 columns help is wrapped at
+    "a help line that keeps going and going, well past the hundred columns at which help screens are wrapped, still one line",
 ];
 
 fn seed_texts(s: &mut Spec, rng: &mut Rng) {
@@ -788,8 +790,25 @@ pub fn run_case(case: &mut Case) {
             }
             _ => {}
         }
+        // fish and elvish: the requested file/directory/raw completers have to be in the output too
+        if (j.rev == 9 || j.rev == 1) && j.ops.iter().any(|o| *o != Op::Nothing) {
+            case.rep.count("fish-elvish-jobs-with-a-requested-completer");
+            violations.push((
+                "requested-completer-dropped".into(),
+                format!(
+                    "requested {:?}: the output for this shell has no directive for them",
+                    j.rev0.ops
+                ),
+            ));
+        }
         let hostile_typed = typed.chars().any(|c| !(c.is_alphanumeric() || c == '-' || c == '='));
         for (kind, problem) in violations {
+            if kind == "requested-completer-dropped" {
+                let sig = format!("rev{}:{}", j.rev, kind);
+                case.rep
+                    .violation(&sig, "script", case.index, detail(problem));
+                continue;
+            }
             let sig = format!(
                 "rev{}:{}:{}{}",
                 j.rev,
